@@ -4,7 +4,10 @@ package main
 
 import (
 	"fmt"
+	"go/token"
 	"go/types"
+	"sort"
+	"strings"
 
 	"golang.org/x/tools/go/ssa"
 )
@@ -243,11 +246,25 @@ func c18R8(c *Ctx) {
 				continue
 			}
 			days := cl.Common().Args[3]
-			if _, isPhi := days.(*ssa.Phi); !isPhi {
+			var alts []valueAlt
+			switch dv := days.(type) {
+			case *ssa.Phi:
+				alts = p.valueAlternatives(days, cl.Block(), 0)
+			case *ssa.Call:
+				// the count is computed by a helper: the alternatives of what it returns
+				if cal := dv.Call.StaticCallee(); cal != nil && p.InModule(cal) && len(cal.Blocks) > 0 {
+					for _, b := range cal.Blocks {
+						if ret, isR := b.Instrs[len(b.Instrs)-1].(*ssa.Return); isR && len(ret.Results) == 1 && b != cal.Recover {
+							alts = append(alts, p.valueAlternatives(ret.Results[0], b, 0)...)
+						}
+					}
+				}
+			}
+			if len(alts) < 2 {
 				continue
 			}
 			weekly, timeDep := false, false
-			for _, alt := range p.valueAlternatives(days, cl.Block(), 0) {
+			for _, alt := range alts {
 				isWeekly := false
 				for _, a := range alt.cond.Atoms() {
 					if a.Rel == "!=" && a.R != nil && a.R.IsNil() && isFieldOrg(a.L, fEndDay) && alt.cond.Implies(func(b *Atom) bool { return b.ID() == a.ID() }) {
@@ -518,4 +535,578 @@ func impliesFeasible(d DNF, pred func(*Atom) bool) bool {
 		}
 	}
 	return any
+}
+
+// recoveryHandlers: the inbound handlers of the recovery state — methods of the type that owns the
+// stash which hand the message to the in-session handler of the same signature — with that call.
+func recoveryHandlers(p *Prog) map[*ssa.Function]ssa.CallInstruction {
+	rs := p.Named(modPath, "resendState")
+	inSess := p.Named(modPath, "inSession")
+	out := map[*ssa.Function]ssa.CallInstruction{}
+	for _, fn := range p.FuncsIn(modPath) {
+		recv := fn.Signature.Recv()
+		if recv == nil || !types.Identical(recv.Type(), rs) || len(fn.Params) != 3 || !isPtrToNamed(fn.Params[2].Type(), "Message") {
+			continue
+		}
+		for _, cl := range Calls(fn) {
+			cal := cl.Common().StaticCallee()
+			if cal != nil && cal.Signature.Recv() != nil && types.Identical(cal.Signature.Recv().Type(), inSess) && sameParamTypes(cal.Signature, fn.Signature) {
+				if _, have := out[fn]; !have { // the first one: the stash replay calls it again
+					out[fn] = cl
+				}
+			}
+		}
+	}
+	return out
+}
+
+// C04-R11 (= C01-R10): a recovery does not outlive the epoch it was started in. The in-session
+// handler the recovery state delegates to can reset the store (a Logon carrying ResetSeqNumFlag),
+// and the store can be reset between two messages (the daily reset time). Everything the
+// recovery state carries — the requested range, the stash — is numbered in the epoch in which
+// the ResendRequest was sent. So after the delegate call every use of that data (a look-up in
+// the stash, handing back a recovery state) is reached only under a test involving the store's
+// creation time, which a reset renews. Without it a message stashed before the reset is delivered
+// as if it carried the same number in the new epoch, and the message that really carries it is
+// refused as too low (D22).
+func c04R11(c *Ctx) {
+	p := c.P
+	r := getRoles(p)
+	rs := p.Named(modPath, "resendState")
+	fStash := p.Field(modPath, "resendState", "messageStash")
+	n := 0
+	for fn, del := range recoveryHandlers(p) {
+		cal := del.Common().StaticCallee()
+		mayReset := p.reachesAny(cal, func(f *ssa.Function) bool { return len(r.storeCalls(f, "Reset")) > 0 })
+		if !mayReset {
+			c.Note("%s: the in-session handler cannot reach a store reset; no epoch obligation", FuncName(fn))
+			n++
+			continue
+		}
+		name := FuncName(fn)
+		epochTest := func(a *Atom) bool {
+			for _, side := range []*Org{a.L, a.R, a.B} {
+				if side != nil && side.Mentions(func(x *Org) bool { return x.IsCallTo("(MessageStore).CreationTime") }) {
+					return true
+				}
+			}
+			return false
+		}
+		check := func(in ssa.Instruction, what string) {
+			if !InstrDominates(del.(ssa.Instruction), in) {
+				return
+			}
+			n++
+			d := p.ReachCond(in.Block())
+			c.Check(d.Implies(epochTest), name, p.InstrPos(in), "epoch-checked:"+what, what+" only under a test of the store's creation time",
+				what+" after the in-session handler ran, under "+clip(d.String(), 160)+", with no test of the store's creation time: the handler may have reset the store (Logon with ResetSeqNumFlag), and the range and stash of the previous epoch are then applied to the new numbering — a message stashed before the reset is delivered under its old number and the real one is refused as too low")
+		}
+		ForEachInstr(fn, func(in ssa.Instruction) {
+			switch x := in.(type) {
+			case *ssa.Lookup:
+				if isFieldOrg(p.Origin(x.X), fStash) {
+					check(in, "the stash is read")
+				}
+			case *ssa.Return:
+				for _, res := range x.Results {
+					for _, alt := range p.valueAlternatives(res, x.Block(), 0) {
+						if mi, ok := alt.val.(*ssa.MakeInterface); ok && types.Identical(mi.X.Type(), rs) {
+							check(in, "a recovery state is handed back")
+							return
+						}
+					}
+				}
+			}
+		})
+	}
+	// the epoch the test compares with is the one in which the request was sent: every field of the
+	// recovery state that an epoch test reads is set from the store's creation time by the function
+	// that builds the ResendRequest, before each of its success returns
+	epochFields := map[*types.Var]bool{}
+	for fn := range recoveryHandlers(p) {
+		for _, b := range fn.Blocks {
+			for _, a := range p.ReachCond(b).Atoms() {
+				for _, side := range []*Org{a.L, a.R, a.B} {
+					if side == nil || !side.Mentions(func(x *Org) bool { return x.IsCallTo("(MessageStore).CreationTime") }) {
+						continue
+					}
+					side.Mentions(func(x *Org) bool {
+						if x.Kind == "field" && x.Base != nil && x.Base.Kind == "param" && x.Base.Param == 0 {
+							epochFields[x.Field] = true
+						}
+						return false
+					})
+				}
+			}
+		}
+	}
+	t7 := p.Tag("tagBeginSeqNo")
+	for f := range epochFields {
+		ok := false
+		for _, st := range p.FieldStores(f) {
+			if len(p.setTagCalls(st.Fn, t7)) == 0 || !p.Origin(st.Store.Val).Mentions(func(x *Org) bool { return x.IsCallTo("(MessageStore).CreationTime") }) {
+				continue
+			}
+			dom := true
+			for _, b := range st.Fn.Blocks {
+				if ret, isR := b.Instrs[len(b.Instrs)-1].(*ssa.Return); isR && b != st.Fn.Recover && p.possibleSuccess(ret) && !InstrDominates(st.Store, ret) {
+					dom = false
+				}
+			}
+			if dom {
+				ok = true
+			}
+		}
+		n++
+		c.Check(ok, "resendState."+cn(f), "-", "epoch-recorded:"+cn(f), "the epoch field is set from the store's creation time where the ResendRequest is built",
+			"the recovery state's "+cn(f)+" is compared with the store's creation time but is not set from it, before every success return, by the function that builds the ResendRequest: the comparison does not tell whether the store was reset since the request went out")
+	}
+	if n == 0 {
+		c.Violation("", "-", "no-recovery-handler", "the recovery state's inbound handler was not found (anchor lost)")
+	}
+}
+
+// C02-R11: the store is reset only inside the send critical section. A sender holds sendMutex
+// from reading the next outbound number to persisting it and queueing the bytes; a reset that runs
+// without the mutex can fall between the read and the persist — the message is then stored and
+// queued under its old-epoch number after the counters went back to 1, the first number of the new
+// epoch is never used, and the store holds a message the new epoch does not know (D23). Every call
+// of the store's Reset in the session code therefore executes with sendMutex held, by the function
+// itself or by every caller chain up to an entry point.
+func c02R11(c *Ctx) {
+	p := c.P
+	r := getRoles(p)
+	ops := map[*ssa.Function][]GuardedOp{}
+	n := 0
+	for _, fn := range p.FuncsIn(modPath) {
+		if fnPkg(fn).Pkg.Path() != modPath {
+			continue
+		}
+		for _, cl := range r.storeCalls(fn, "Reset") {
+			ops[fn] = append(ops[fn], GuardedOp{cl, sendMu, "store.Reset"})
+			n++
+			if lockSatisfied(p.Locks(fn).HeldAt(cl), sendMu) {
+				c.OK(FuncName(fn), p.InstrPos(cl), "store.Reset under "+sendMu+" (acquired in this function)")
+			} else {
+				c.OK(FuncName(fn), p.InstrPos(cl), "store.Reset: entry requirement "+sendMu+" (checked at callers)")
+			}
+		}
+	}
+	// callers that reach a function without holding the mutex at the call site
+	type edge struct {
+		caller *ssa.Function
+		site   ssa.Instruction
+	}
+	callers := map[*ssa.Function][]edge{}
+	for _, f := range p.Funcs {
+		for _, e := range p.SyncCallees(f) {
+			if !lockSatisfied(p.Locks(f).HeldAt(e.site), sendMu) {
+				callers[e.callee] = append(callers[e.callee], edge{f, e.site})
+			}
+		}
+	}
+	var fns []*ssa.Function
+	for fn := range ops {
+		fns = append(fns, fn)
+	}
+	sort.Slice(fns, func(i, j int) bool { return fns[i].Pos() < fns[j].Pos() })
+	for _, fn := range fns {
+		for _, op := range ops[fn] {
+			if lockSatisfied(p.Locks(fn).HeldAt(op.In), sendMu) {
+				continue
+			}
+			// breadth-first towards an entry point along unlocked call edges
+			type node struct {
+				fn    *ssa.Function
+				chain string
+			}
+			seen := map[*ssa.Function]bool{fn: true}
+			queue := []node{{fn, FuncName(fn)}}
+			var found *node
+			var kinds []string
+			for len(queue) > 0 && found == nil {
+				cur := queue[0]
+				queue = queue[1:]
+				if k := p.entryKinds(cur.fn); len(k) > 0 {
+					found, kinds = &cur, k
+					break
+				}
+				es := callers[cur.fn]
+				sort.Slice(es, func(i, j int) bool { return es[i].site.Pos() < es[j].site.Pos() })
+				for _, e := range es {
+					if !seen[e.caller] {
+						seen[e.caller] = true
+						queue = append(queue, node{e.caller, FuncName(e.caller) + " → " + cur.chain})
+					}
+				}
+			}
+			if found != nil {
+				c.Violation(FuncName(fn), p.InstrPos(op.In), "reset-outside-send-section", fmt.Sprintf("the store is reset without %s held, on the path %s (entered as: %s): a sender that has read its number but not yet persisted it is overtaken by the reset — it is stored and sent under the old-epoch number after the counters went back to 1, and number 1 of the new epoch is never used", sendMu, found.chain, clip(strings.Join(kinds, "; "), 120)))
+			}
+		}
+	}
+	if n == 0 {
+		c.Violation("", "-", "no-reset-sites", "the session code never resets the store (anchor lost)")
+	}
+}
+
+// C03-R9: the start-of-body mark stops at the first body field. The parser moves bodyBytes past
+// every field while the body has not begun (the flag that says so is false); whatever files a
+// field into the Body — the plain arm, or the group sub-parser for a NumInGroup field — has set
+// that flag by the end of its block, otherwise bodyBytes (what a replay is rebuilt from) starts
+// after the group, and the replayed message silently loses it.
+func c03R9(c *Ctx) {
+	p := c.P
+	fFound := p.Field(modPath, "msgParser", "foundBody")
+	fTrailer := p.Field(modPath, "msgParser", "trailerBytes")
+	fBody := p.Field(modPath, "Message", "Body")
+	fns := map[*ssa.Function]bool{}
+	for _, st := range p.FieldStores(fTrailer) {
+		fns[st.Fn] = true
+	}
+	isSet := func(in ssa.Instruction) bool {
+		st, ok := in.(*ssa.Store)
+		if !ok || fieldAddrOf(st.Addr, fFound) == nil {
+			return false
+		}
+		b, isB := p.Origin(st.Val).ConstBoolVal()
+		return isB && b
+	}
+	flows := map[*ssa.Function]*MustFlow{}
+	var flowOf func(fn *ssa.Function) *MustFlow
+	alwaysSets := func(fn *ssa.Function) bool { return flowOf(fn).MustAtAllReturns()["found"] }
+	flowOf = func(fn *ssa.Function) *MustFlow {
+		if mf, ok := flows[fn]; ok {
+			return mf
+		}
+		mf := &MustFlow{Fn: fn}
+		flows[fn] = mf
+		mf.Transfer = func(in ssa.Instruction, s Set) {
+			if isSet(in) {
+				s["found"] = true
+			}
+			if cl, ok := in.(ssa.CallInstruction); ok {
+				if cal := cl.Common().StaticCallee(); cal != nil && cal != fn && fns[cal] && alwaysSets(cal) {
+					s["found"] = true
+				}
+			}
+		}
+		return mf
+	}
+	// a sub-parser every caller of which has set the flag before the call starts with it set
+	for fn := range fns {
+		sites := p.CallsTo(fn)
+		all := len(sites) > 0
+		for _, cs := range sites {
+			if !fns[cs.Fn] || cs.Fn == fn || !flowOf(cs.Fn).Before(cs.Call.(ssa.Instruction))["found"] {
+				all = false
+			}
+		}
+		if all {
+			delete(flows, fn)
+			flowOf(fn).Entry = Set{"found": true}
+		}
+	}
+	n := 0
+	for fn := range fns {
+		mf := flowOf(fn)
+		for _, cl := range Calls(fn) {
+			cal := cl.Common().StaticCallee()
+			if cal == nil {
+				continue
+			}
+			files := false
+			what := ""
+			if cal.Signature.Recv() != nil && typeName(cal.Signature.Recv().Type()) == "FieldMap" && fnName(cal) == "add" && len(cl.Common().Args) == 2 &&
+				p.Origin(cl.Common().Args[0]).Mentions(func(x *Org) bool { return x.Kind == "field" && x.Field == fBody }) {
+				files, what = true, "a field is filed into the Body"
+			} else if cal != fn && fns[cal] {
+				files, what = true, "a NumInGroup field is handed to "+FuncName(cal)
+			}
+			if !files {
+				continue
+			}
+			n++
+			ok := mf.Before(cl.(ssa.Instruction))["found"]
+			if !ok {
+				past := false
+				for _, in := range cl.Block().Instrs {
+					if in == cl.(ssa.Instruction) {
+						past = true
+						if c2 := cl.Common().StaticCallee(); c2 != nil && c2 != fn && fns[c2] && alwaysSets(c2) {
+							ok = true
+						}
+						continue
+					}
+					if past && isSet(in) {
+						ok = true
+					}
+				}
+			}
+			c.Check(ok, FuncName(fn), p.InstrPos(cl.(ssa.Instruction)), "body-start-mark", "the body-has-begun flag is set when a field is filed into the Body",
+				what+" without the body-has-begun flag being set by the end of the block: the start-of-body mark keeps moving, bodyBytes begins after this field (after the whole group), and a replay rebuilt from bodyBytes silently loses it")
+		}
+	}
+	if n < 2 {
+		c.Violation("", "-", "no-body-filing", "fewer than two sites file fields into the Body in the parser")
+	}
+}
+
+// implementations: the in-module methods an interface method call can dispatch to.
+func (p *Prog) implementations(m *types.Func) []*ssa.Function {
+	if m == nil {
+		return nil
+	}
+	sig, ok := m.Type().(*types.Signature)
+	if !ok || sig.Recv() == nil {
+		return nil
+	}
+	iface, ok := sig.Recv().Type().Underlying().(*types.Interface)
+	if !ok {
+		return nil
+	}
+	var out []*ssa.Function
+	for _, fn := range p.Funcs {
+		if !p.InModule(fn) || fn.Signature.Recv() == nil || fn.Name() != m.Name() || fn.Synthetic != "" {
+			continue
+		}
+		rt := fn.Signature.Recv().Type()
+		if types.Implements(rt, iface) || types.Implements(types.NewPointer(rt), iface) {
+			out = append(out, fn)
+		}
+	}
+	sort.Slice(out, func(i, j int) bool { return out[i].Pos() < out[j].Pos() })
+	return out
+}
+
+// C04-R12 (= C01-R11): every inbound message is parsed into a message of its own. The early
+// message of a gap is kept by pointer in the stash, and the replay loop reuses nothing: if the
+// function that parses inbound bytes handed the handlers a Message it keeps and reuses (a field of
+// the state machine, a pool), every stashed entry would alias the buffer the next inbound message
+// overwrites, and the kept message would be lost. The Message passed to the parser and on to the
+// state handlers is the result of a constructor call made in that invocation.
+func c04R12(c *Ctx) {
+	p := c.P
+	inc := p.incomingFn()
+	name := FuncName(inc)
+	n := 0
+	for _, cl := range Calls(inc) {
+		cal := cl.Common().StaticCallee()
+		if cal == nil || !p.InModule(cal) {
+			continue
+		}
+		for i, a := range cl.Common().Args {
+			if !isPtrToNamed(a.Type(), "Message") {
+				continue
+			}
+			// only calls that hand the message on (parser target, state dispatch), not methods on it
+			if i == 0 && cal.Signature.Recv() != nil && isPtrToNamed(cal.Signature.Recv().Type(), "Message") {
+				continue
+			}
+			n++
+			o := p.Origin(a)
+			fresh := o.Kind == "call" && o.Callee != nil && p.returnsFreshDeep(o.Callee, 0, 0) && o.CallI != nil && o.CallI.Parent() == inc
+			c.Check(fresh, name, p.InstrPos(cl.(ssa.Instruction)), "inbound-message-fresh:"+FuncName(cal), "the message handed to "+FuncName(cal)+" was allocated for this inbound message",
+				"the Message handed to "+FuncName(cal)+" is "+o.String()+", not one allocated for this inbound message: a too-high message is kept by pointer in the recovery stash, so a reused parse target makes every stashed entry alias the next inbound message — the kept message is overwritten and lost")
+		}
+	}
+	if n < 2 {
+		c.Violation(name, p.Pos(inc.Pos()), "no-inbound-handoff", "the inbound function does not hand a Message to the parser and the state handlers")
+	}
+}
+
+// C07-R12: NextExpectedMsgSeqNum(789) implies a gap fill only on a Logon that does not reset. Where
+// tag 789 of a received message is compared with an outbound number that was read from the store
+// BEFORE a call that may reset the store (so that the number can be one of the closed epoch), the
+// comparison is reached only under the absence of ResetSeqNumFlag(141) in that message: after an
+// agreed reset both sides are at 1 and nothing is implied. A comparison with a number read after
+// the last possible reset carries no such obligation.
+func c07R12(c *Ctx) {
+	p := c.P
+	t789, t141 := p.Tag("tagNextExpectedMsgSeqNum"), p.Tag("tagResetSeqNumFlag")
+	r := getRoles(p)
+	mayReset := func(cal *ssa.Function) bool {
+		return cal != nil && p.InModule(cal) && (len(r.storeCalls(cal, "Reset")) > 0 || p.reachesAny(cal, func(g *ssa.Function) bool { return len(r.storeCalls(g, "Reset")) > 0 }))
+	}
+	precedes := func(a, b ssa.Instruction) bool {
+		if a.Block() == b.Block() {
+			return instrIndex(a) < instrIndex(b)
+		}
+		return blockReaches(a.Block(), b.Block())
+	}
+	// resetBetween: in the function of `from`, a call that may reset the store can run after `from` and before `to`
+	resetBetween := func(from, to ssa.Instruction) bool {
+		for _, c2 := range Calls(from.Parent()) {
+			in2 := c2.(ssa.Instruction)
+			if in2 == from || in2 == to || !mayReset(c2.Common().StaticCallee()) {
+				continue
+			}
+			if precedes(from, in2) && precedes(in2, to) {
+				return true
+			}
+		}
+		return false
+	}
+	is789 := func(o *Org) bool {
+		return o.Mentions(func(x *Org) bool {
+			return (x.Kind == "call" || x.Kind == "outarg") && x.IsCallTo("(FieldMap).GetInt", "(FieldMap).GetField") && x.ArgConstInt(0, t789)
+		})
+	}
+	captureOf := func(o *Org) ssa.Instruction {
+		var k ssa.Instruction
+		o.Mentions(func(x *Org) bool {
+			if x.Kind == "call" && x.IsCallTo("(MessageStore).NextSenderMsgSeqNum") && x.CallI != nil {
+				k = x.CallI
+			}
+			return false
+		})
+		return k
+	}
+	no141 := func(d DNF) bool {
+		return d.Implies(func(a *Atom) bool {
+			return a.Rel == "" && !a.Val && a.B.IsCallTo("(FieldMap).Has") && a.B.ArgConstInt(0, t141)
+		})
+	}
+	n := 0
+	for _, fn := range p.FuncsIn(modPath) {
+		if fnPkg(fn).Pkg.Path() != modPath {
+			continue
+		}
+		fn := fn
+		ForEachInstr(fn, func(in ssa.Instruction) {
+			b, ok := in.(*ssa.BinOp)
+			if !ok {
+				return
+			}
+			switch b.Op {
+			case token.EQL, token.NEQ, token.LSS, token.LEQ, token.GTR, token.GEQ:
+			default:
+				return
+			}
+			l, ro := p.Origin(b.X), p.Origin(b.Y)
+			var other *Org
+			switch {
+			case is789(l):
+				other = ro
+			case is789(ro):
+				other = l
+			default:
+				return
+			}
+			n++
+			stale, guarded := false, no141(p.ReachCond(in.Block()))
+			if k := captureOf(other); k != nil && k.Parent() == fn {
+				stale = resetBetween(k, in)
+			} else if other.Kind == "param" && other.Fn == fn {
+				// a helper: the number is captured by the caller
+				for _, cs := range p.CallsTo(fn) {
+					args := cs.Call.Common().Args
+					if other.Param >= len(args) {
+						continue
+					}
+					if k := captureOf(p.Origin(args[other.Param])); k != nil && k.Parent() == cs.Fn && resetBetween(k, cs.Call.(ssa.Instruction)) {
+						stale = true
+						if no141(p.ReachCond(cs.Call.Block())) {
+							guarded = true
+						}
+					}
+				}
+			}
+			if !stale {
+				c.OK(FuncName(fn), p.InstrPos(in), "tag 789 compared with a number read after the last possible reset")
+				return
+			}
+			c.Check(guarded, FuncName(fn), p.InstrPos(in), "789-only-without-141", "a comparison of NextExpectedMsgSeqNum(789) with a number captured before a possible reset is reached only without ResetSeqNumFlag(141)",
+				"NextExpectedMsgSeqNum(789) of the received Logon is compared with "+clip(other.String(), 80)+", an outbound number read before a call that may reset the store, and the comparison does not exclude a Logon carrying ResetSeqNumFlag(141): right after an agreed reset a gap fill to the stale number is sent and the peer is told to jump ahead")
+		})
+	}
+	if n == 0 {
+		c.Violation("", "-", "no-789-comparison", "no function compares NextExpectedMsgSeqNum(789) of a received message")
+	}
+}
+
+// C10-R11: copying a message copies every section. For each section field of Message (the fields
+// whose type embeds FieldMap) the copy function calls the field-map copy with that section of
+// the source as the source and the same section of the destination as the destination.
+func c10R11(c *Ctx) {
+	p := c.P
+	msgT := p.Named(modPath, "Message")
+	st, ok := msgT.Underlying().(*types.Struct)
+	if !ok {
+		c.Violation("", "-", "no-message-struct", "Message is not a struct")
+		return
+	}
+	fmCopy := p.Method(modPath, "FieldMap", "CopyInto")
+	var copyFn *ssa.Function
+	for _, fn := range p.FuncsIn(modPath) {
+		if r := fn.Signature.Recv(); r != nil && isPtrToNamed(r.Type(), "Message") && fn.Signature.Params().Len() == 1 && isPtrToNamed(fn.Signature.Params().At(0).Type(), "Message") && fn.Signature.Results().Len() == 0 {
+			for _, cl := range Calls(fn) {
+				if cl.Common().StaticCallee() == fmCopy {
+					copyFn = fn
+				}
+			}
+		}
+	}
+	if copyFn == nil {
+		c.Violation("", "-", "no-message-copy", "no method of *Message copies field maps into another *Message")
+		return
+	}
+	n := 0
+	for i := 0; i < st.NumFields(); i++ {
+		f := st.Field(i)
+		sec, isStruct := f.Type().Underlying().(*types.Struct)
+		if !isStruct {
+			continue
+		}
+		embeds := false
+		for j := 0; j < sec.NumFields(); j++ {
+			if sec.Field(j).Embedded() && typeName(sec.Field(j).Type()) == "FieldMap" {
+				embeds = true
+			}
+		}
+		if !embeds {
+			continue
+		}
+		n++
+		copied := false
+		for _, cl := range Calls(copyFn) {
+			if cl.Common().StaticCallee() != fmCopy || len(cl.Common().Args) != 2 {
+				continue
+			}
+			src, dst := p.Origin(cl.Common().Args[0]), p.Origin(cl.Common().Args[1])
+			mentions := func(o *Org, param int) bool {
+				return o.Mentions(func(x *Org) bool {
+					return x.Kind == "field" && x.Field == f && x.Base != nil && x.Base.Mentions(func(y *Org) bool { return y.Kind == "param" && y.Param == param })
+				})
+			}
+			if mentions(src, 0) && mentions(dst, 1) {
+				copied = true
+			}
+		}
+		c.Check(copied, FuncName(copyFn), p.Pos(copyFn.Pos()), "section-copied:"+cn(f), "section "+cn(f)+" of the source is copied into section "+cn(f)+" of the destination",
+			"the message copy does not copy the "+cn(f)+" section of the source into the "+cn(f)+" section of the destination: fields held there (a Signature in the trailer, routing fields in the header) are missing from the copy, which no longer serialises like its source")
+	}
+	if n < 3 {
+		c.Violation("", "-", "few-sections", "fewer than three field-map sections found in Message")
+	}
+}
+
+// blockReaches: b can be reached from a along CFG edges (a != b).
+func blockReaches(a, b *ssa.BasicBlock) bool {
+	seen := map[*ssa.BasicBlock]bool{}
+	stack := []*ssa.BasicBlock{a}
+	for len(stack) > 0 {
+		x := stack[len(stack)-1]
+		stack = stack[:len(stack)-1]
+		for _, s := range x.Succs {
+			if s == b {
+				return true
+			}
+			if !seen[s] {
+				seen[s] = true
+				stack = append(stack, s)
+			}
+		}
+	}
+	return false
 }
